@@ -1303,9 +1303,11 @@ func (a *Agent) addRemoteCandidate(cand Candidate) bool { //nolint:cyclop
 	set = a.replaceRedundantPeerReflexiveCandidates(set, cand)
 
 	acceptRemotePassiveTCPCandidate := false
-	// Assert that TCP4 or TCP6 is a enabled NetworkType locally
+	// Assert that TCP4 or TCP6 is a enabled NetworkType locally, and that host candidates
+	// (what an active TCP candidate is) are an enabled candidate type.
 	if !a.disableActiveTCP && cand.TCPType() == TCPTypePassive {
-		if slices.Contains(configuredNetworkTypes(a.networkTypes), cand.NetworkType()) {
+		if slices.Contains(configuredNetworkTypes(a.networkTypes), cand.NetworkType()) &&
+			containsCandidateType(CandidateTypeHost, a.candidateTypes) {
 			acceptRemotePassiveTCPCandidate = true
 		}
 	}
